@@ -12,15 +12,15 @@ open TF TF.Engine TF.Spec TF.Frontend
 def TagFrom (tblS : List (Vid × List QField)) (ftblS : List (Eid × List FDir × QNode))
     (e : TagEntry) : Prop :=
   (∃ w fld ty fs, e.field = .ctx w fld ty ∧ (w, fs) ∈ tblS ∧ (e.name, fld) ∈ tagPairs fs) ∨
-  (∃ eid root fds child, e.field = .fcount eid root ∧ (eid, fds, child) ∈ ftblS ∧
+  (∃ eid root fds child, e.field = .fcount eid root ∧ root = eid + 1 ∧ (eid, fds, child) ∈ ftblS ∧
     e.name ∈ countTagNames fds)
 
 theorem TagFrom.mono {t1 t2 : List (Vid × List QField)} {f1 f2 : List (Eid × List FDir × QNode)}
     (ht : ∀ p ∈ t1, p ∈ t2) (hf : ∀ p ∈ f1, p ∈ f2) {e : TagEntry} (h : TagFrom t1 f1 e) :
     TagFrom t2 f2 e := by
-  rcases h with ⟨w, fld, ty, fs, h1, h2, h3⟩ | ⟨eid, root, fds, child, h1, h2, h3⟩
+  rcases h with ⟨w, fld, ty, fs, h1, h2, h3⟩ | ⟨eid, root, fds, child, h1, hr, h2, h3⟩
   · exact Or.inl ⟨w, fld, ty, fs, h1, ht _ h2, h3⟩
-  · exact Or.inr ⟨eid, root, fds, child, h1, hf _ h2, h3⟩
+  · exact Or.inr ⟨eid, root, fds, child, h1, hr, hf _ h2, h3⟩
 
 theorem tagDirs_names (vid : Vid) (n : Name) (pty : QTy) (dirs : List Dir) :
     (tagDirs vid n pty dirs).map (·.1) = (dirTags n dirs).map (·.1) := by
@@ -164,7 +164,7 @@ theorem tags_fill3 (S : SchemaView) :
           (fun p hp => by rw [hft]; exact List.mem_cons_of_mem _ (List.mem_append_left _ hp)))
       · obtain ⟨p, hp, rfl⟩ := List.mem_map.1 h
         obtain ⟨hp2, hp1⟩ := countTags_from st.nextEid st.nextVid fds p hp
-        exact Or.inr (Or.inr ⟨st.nextEid, st.nextVid, fds, child, hp2,
+        exact Or.inr (Or.inr ⟨st.nextEid, st.nextVid, fds, child, hp2, h0,
           by rw [hft]; exact List.mem_cons_self .., hp1⟩)
       · rcases r3 e h with ⟨fld, ty', hf, hp⟩ | h'
         · exact Or.inl ⟨fld, ty', hf, by simpa [tagPairs] using hp⟩
